@@ -50,6 +50,7 @@ def run(ctx):
     F = ctx.F
     # reads keep returning committed data after a failed write: overlay entries leave only after the record was published successfully
     shared.handover_order(ctx, '7')
+    shared.metadata_replaced_atomically(ctx, '8')
     n = prop = stored = unw = local = 0
     local_counts = {}
     for b, bi, t in errdisc.fallible_sites(F):
